@@ -219,6 +219,9 @@ fn history_case(c: &J, seed: u64, stat: &mut [usize; 4]) -> Result<usize, String
             }
         }
         let now = if lowrank { scales_of(&lowr.verif_dump(&mut math)) } else { scales_of(&verif::diag_dump(&mut math, &diag)) };
+        if std::env::var("C08_DEBUG").is_ok() {
+            eprintln!("step {step}: stds={:?} inv={:?} vals_sqrt={:?} logdet={} id={}", now.stds, now.inv_stds, now.vals_sqrt, now.logdet, now.id);
+        }
         never_degenerate(&now, &what)?;
         checks += 3 * dim + 1;
         // low-rank: a numerically failed decomposition may keep everything
@@ -424,6 +427,7 @@ pub fn main(args: &[String]) -> i32 {
     } else {
         Box::new(std::io::BufReader::new(std::fs::File::open(&path).expect("open")))
     };
+    let repeat: u64 = std::env::var("C08_REPEAT").ok().and_then(|s| s.parse().ok()).unwrap_or(1);
     let tol: f64 = std::env::var("C08_LOWRANK_TOL").ok().and_then(|s| s.parse().ok()).unwrap_or(1e-6);
     std::panic::set_hook(Box::new(|_| {}));
     let (mut cases, mut checks) = (0usize, 0usize);
@@ -445,7 +449,19 @@ pub fn main(args: &[String]) -> i32 {
         let r = std::panic::catch_unwind(std::panic::AssertUnwindSafe(|| match kind.as_str() {
             "gauss_diag" => gauss_diag_case(&c),
             "gauss_lowrank" => gauss_lowrank_case(&c, tol, &mut worst),
-            _ => history_case(&c, cases as u64, &mut stat),
+            _ => {
+                // the class of a window fixes its shape, not its numbers: every history is run on `repeat` data sets
+                let mut total = 0;
+                let mut res = Ok(0);
+                for r in 0..repeat {
+                    res = history_case(&c, (cases as u64) * 1000 + r, &mut stat);
+                    match &res {
+                        Ok(k) => total += *k,
+                        Err(_) => break,
+                    }
+                }
+                res.map(|_| total)
+            }
         }));
         let err = match r {
             Ok(Ok(k)) => {
